@@ -15,6 +15,11 @@ pub struct C09;
 pub enum Case {
     Poseidon(Vec<Fx>),
     Keccak(Bytes),
+    /// purity across calls: related inputs hashed back to back on one thread (s, s', s) where s' is s
+    /// with one byte changed at a generated position (same length, long shared prefix or suffix)
+    KeccakSeq { base: Bytes, at: u16, xor: u8 },
+    /// the same for Poseidon: v, v with one element changed, v
+    PoseidonSeq { v: Vec<Fx>, at: u8, other: Fx },
 }
 
 fn ffi_call(f: extern "C" fn(*const Buffer, *mut Buffer) -> bool, input: &[u8]) -> Option<Vec<u8>> {
@@ -125,7 +130,7 @@ impl Property for C09 {
     }
     fn rule(&self) -> String {
         "cases: vectors in Fr^n (n=1..8, boundary-weighted, incl. all-equal) and byte strings (block-edge lengths 135/136/137/271.., long patterns); \
-         each compared on three entry points (typed, byte-level, FFI) against the BigUint reference Poseidon / own Keccak sponge. \
+         each compared on three entry points (typed, byte-level, FFI) against the BigUint reference Poseidon / own Keccak sponge; KeccakSeq / PoseidonSeq: related inputs (equal length, one byte / one element changed, mostly near the end so that a long prefix is shared) hashed back to back on one thread in the order s, s', s, s' — each result against the reference (purity across calls). \
          non-trivial = Poseidon with n>=4 or a boundary element, or a byte string whose length is within 1 of a multiple of 136 (>=135) or > 136; distinct by case content".into()
     }
     fn assumptions(&self) -> Vec<String> {
@@ -152,6 +157,8 @@ impl Property for C09 {
             4 => (1usize..=8).prop_flat_map(|n| proptest::collection::vec(gens::fx(), n)).prop_map(Case::Poseidon),
             1 => (1usize..=8, gens::fx()).prop_map(|(n, f)| Case::Poseidon(vec![f; n])),
             4 => gens::bytes(max_long).prop_map(Case::Keccak),
+            2 => (gens::bytes(2000), any::<u16>(), 1u8..=255).prop_map(|(base, at, xor)| Case::KeccakSeq { base, at, xor }),
+            1 => ((1usize..=8).prop_flat_map(|n| proptest::collection::vec(gens::fx(), n)), any::<u8>(), gens::fx()).prop_map(|(v, at, other)| Case::PoseidonSeq { v, at, other }),
         ]
         .boxed()
     }
@@ -179,6 +186,50 @@ impl Property for C09 {
                 }
                 o.nontrivial = edge || data.len() > 136;
                 check_keccak(&data, &mut o);
+            }
+            Case::KeccakSeq { base, at, xor } => {
+                let s1 = base.expand();
+                if s1.is_empty() {
+                    check_keccak(&s1, &mut o);
+                    return o;
+                }
+                let mut s2 = s1.clone();
+                // positions weighted towards the end (long shared prefix) and the start
+                let i = match at % 4 {
+                    0 => s2.len() - 1,
+                    1 => s2.len() - 1 - (*at as usize / 4) % s2.len().min(40),
+                    2 => (*at as usize / 4) % s2.len().min(40),
+                    _ => pick_index(*at, s2.len()),
+                };
+                s2[i] ^= *xor;
+                o.label(if i >= 32 { "keccak-seq/shared-prefix>=32" } else { "keccak-seq/early-difference" });
+                o.nontrivial = s1.len() > 32;
+                let mut n = 0;
+                for d in [&s1, &s2, &s1, &s2] {
+                    check_keccak(d, &mut o);
+                    n += o.evals;
+                    if o.failed() {
+                        let m = o.fail.take().unwrap();
+                        vfail!(o, "{m} [back-to-back calls on inputs of equal length {} differing only at byte {i}]", s1.len());
+                        return o;
+                    }
+                }
+                o.evals = n;
+            }
+            Case::PoseidonSeq { v, at, other } => {
+                let mut v2 = v.clone();
+                let i = *at as usize % v2.len();
+                v2[i] = if v2[i] == *other { Fx::from_u64(1) } else { *other };
+                o.label(format!("poseidon-seq/n={}", v.len()));
+                o.nontrivial = v.len() >= 2;
+                for d in [v, &v2, v] {
+                    check_poseidon(d, &mut o);
+                    if o.failed() {
+                        let m = o.fail.take().unwrap();
+                        vfail!(o, "{m} [back-to-back calls on vectors differing only at element {i}]");
+                        return o;
+                    }
+                }
             }
         }
         o
